@@ -753,8 +753,12 @@ class Histogram:
         self.error_ = np.sqrt(variance).reshape(1, -1)
         self.systematic_error_ = np.sqrt(
             np.average(self.systematic_error_**2.0, axis=0, weights=weights)
-        )
+        ).reshape(1, -1)
+        # 'histogram_raw_count_' (without the plural s) is kept for backward compatibility
         self.histogram_raw_count_ = np.sum(self.histograms_raw_count_, axis=0)
+        self.histograms_raw_count_ = self.histogram_raw_count_.reshape(
+            1, -1
+        ).copy()
         self.scaling_ = np.asarray(self.scaling_[0])
 
         if self.scaling_.ndim == 1:
@@ -821,11 +825,15 @@ class Histogram:
         self.histograms_ = average
         self.error_ = np.sqrt(
             1.0 / np.sum(1.0 / np.square(self.error_), axis=0)
-        )
+        ).reshape(1, -1)
         self.systematic_error_ = np.sqrt(
             np.average(self.systematic_error_**2.0, axis=0, weights=weights)
-        )
+        ).reshape(1, -1)
+        # 'histogram_raw_count_' (without the plural s) is kept for backward compatibility
         self.histogram_raw_count_ = np.sum(self.histograms_raw_count_, axis=0)
+        self.histograms_raw_count_ = self.histogram_raw_count_.reshape(
+            1, -1
+        ).copy()
         self.scaling_ = np.asarray(self.scaling_[0])
 
         if self.scaling_.ndim == 1:
